@@ -3,6 +3,7 @@ package main
 // C01 — every event reaches the peer exactly once, intact.
 
 import (
+	"go/token"
 	"fmt"
 	"regexp"
 	"strings"
@@ -204,6 +205,12 @@ func runC01(c *Ctx) {
 				if g == "("+T+" != nil)==true" {
 					errBranch = true
 				}
+				// the error lives in a cell because a function literal captures it
+				for _, gg := range Guards(ret) {
+					if bo, isB := gg.Cond.(*ssa.BinOp); isB && gg.Val && bo.Op == token.NEQ && loadOfCellHolding(bo.X, ad.Instr.(*ssa.Call)) {
+						errBranch = true
+					}
+				}
 			}
 			if loopDone {
 				c.Ob("C01-D2", name+"/return", ret.Pos(), true, "return after the loop is exhausted")
@@ -213,8 +220,22 @@ func runC01(c *Ctx) {
 			if errBranch {
 				// the fatal call dominates the return
 				for _, f := range findInstrs(fn, anyCallPred(a.fatal)) {
-					if Dominates(f, ret) {
+					if f.Parent() == fn && Dominates(f, ret) {
 						fatal = true
+					}
+				}
+				// or a function literal started here that routes it on every path
+				for _, bb := range fn.Blocks {
+					for _, in := range bb.Instrs {
+						ci, isCI := in.(ssa.CallInstruction)
+						if !isCI {
+							continue
+						}
+						if mc, isMC := ci.Common().Value.(*ssa.MakeClosure); isMC && Dominates(in, ret) {
+							if skip, _ := CanReachExitAvoiding(mc.Fn.(*ssa.Function), nil, anyCallPred(a.fatal)); !skip {
+								fatal = true
+							}
+						}
 					}
 				}
 			}
